@@ -16,6 +16,10 @@ package server
 //@ func AcceptConnection
 //@   property C15
 //@   requires !G_holds_accept_loop()                        :not_on_accept_loop
+// C04 / C05 / C03: what the endpoint handed over reaches the session handshake and the stream handler unchanged
+//@   property C04, C05, C03
+//@   callsite NewServerConnection#1 (arg1 cert.TlsConfig, arg2 bool) require arg1 == manager && arg2 == secure     :handshake_gets_the_endpoints_settings
+//@   callsite HandleConnection#1 (connectionHandler *ConnectionHandler) require spec_sameslice(connectionHandler.channels, channels)     :handler_serves_exactly_the_filtered_channels
 
 //@ func (st *SocketServer) acceptConnection
 //@   property C15
